@@ -15,11 +15,8 @@ LOCK = Atom("Lock")
 
 def inv_types(T: Types):
     """Invocation objects as seen by the orchestrator: only their identifiers are read."""
-    if hasattr(T, "Invocation"):
-        return
-    T.TaskRec = Record("TaskView", [("task_id", TASK)])
-    T.CallRec = Record("CallView", [("task", T.TaskRec), ("call_id", CALL)])
-    T.Invocation = Record("InvocationView", [("invocation_id", ID), ("call", T.CallRec), ("task", T.TaskRec)])
+    from . import world
+    world.view_types(T)
 
 
 def mem_shape(T: Types, reg: Registry):
